@@ -89,6 +89,10 @@ def classify(sql, s, e, fresh, kind, tree=None):
         return "C05:index-using"
     if re.search(r"\bfetch\b[^;]*\binto\b[^;]*$", before):
         return "C05:fetch-into"
+    mb = list(re.finditer(r"\bbetween\b", before))
+    if mb and not re.search(r"\band\b", before[mb[-1].end():] + " " + after.split(")")[0]):
+        # BETWEEN whose AND is missing: the reducer keeps the first operand only
+        return "C05:between-without-and"
     if re.search(r"(?:[-+*/%|&<>=~]|\b(?:and|or|not|like|in|is|between)\b)\s*(?:[-+~]|not\b)", before) and tree is not None:
         # signature of the reducer's blind operand slots: the prefix operator's own text stands where its operand should be
         def has_optoken(t):
@@ -155,6 +159,8 @@ def run(ctx):
     g.paren_query = True
     gen = [g.statement() for _ in range(ctx.n(400, 6000))]
     stmts += [("common_parser", x) for x in gen if len(x) < 260][:ctx.n(110, 2500)]
+    # witnesses of listed findings that the generators do not produce
+    stmts += [("common_parser", "select a from t where c1 between 7 or c2"), ("common_parser", "select c1 not between 3 from t")]
     for entry, sql in stmts:
         f = impl.ENTRY[entry]
         st, _ = impl.outcome(f, sql)
